@@ -100,6 +100,11 @@ def expected(scn, ref):
     for n in scn["files"]:
         if n not in files:
             files[n] = L.dec(scn["files"][n])
+    # a symbolic link shows the bytes of its target
+    for n, target in (scn.get("links") or {}).items():
+        t = posixpath.normpath(posixpath.join(posixpath.dirname(n), target))
+        if t in files:
+            files[n] = files[t]
     return rc, files
 
 
@@ -166,6 +171,10 @@ def execute(scn, sched=None, threads=None, jitter=None, timeout_ms=NORMAL_MS, bi
     with clilib.Scratch(prefix="sv-c19-") as s:
         for n, c in scn["files"].items():
             s.write(n, L.dec(c))
+        for n, target in (scn.get("links") or {}).items():
+            p_ = os.path.join(s.root, n)
+            os.makedirs(os.path.dirname(p_), exist_ok=True)
+            os.symlink(target, p_)
         env = {"STYLUA_VERIF_PANIC_MARKER": MARK, "RUST_BACKTRACE": "0"}
         tp = os.path.join(s.base, "trace.log")
         if trace:
@@ -198,7 +207,7 @@ def judge(scn, exp, res, how):
     dec_ = [f"{cls} {what}" for _, cls, what in res.events
             if len(what.split()) == 3 and what.split()[1].lstrip("-").isdigit() and what.split()[2].lstrip("-").isdigit()
             and int(what.split()[2]) < int(what.split()[1])]
-    case = {"scenario": {k: scn[k] for k in ("name", "mode", "items", "files", "argv", "cfgs") if k in scn}, "how": how}
+    case = {"scenario": {k: scn[k] for k in ("name", "mode", "items", "files", "argv", "cfgs", "links") if k in scn}, "how": how}
     if res.rc != exp_rc:
         kind = "masked" if (res.rc is not None and res.rc < exp_rc) else "wrong"
         diag = f"; the trace shows the status DEcreasing at: {dec_}" if dec_ else ""
@@ -435,6 +444,19 @@ def big_tree(rng, n, ref, tag, configured=False, bad_last=False):
     return {"name": f"tree{n}-{tag}", "items": items, "files": files, "argv": argv, "cfgs": cfgs}
 
 
+def linked_twice_tree(ref, tag):
+    """One large file that two arguments reach, once by its own name and once through a symbolic link in a
+    directory with another configuration: it is one file, processed once, under the configuration of the name
+    that is met first - whatever the number of workers."""
+    big = "".join(f"local   s{i}  =  'v{i}'\n" for i in range(1500))
+    items = [["src/shared.lua", "U"], ["src/other.lua", "U"], ["vendor/own.lua", "U"]]
+    files = {"src/shared.lua": L.enc(big.encode()), "src/other.lua": L.enc(clilib.lua_unformatted(801).encode()),
+             "vendor/own.lua": L.enc(clilib.lua_unformatted(802).encode()),
+             "vendor/stylua.toml": L.enc(toml_for({"quote_style": "ForceSingle"}).encode())}
+    return {"name": f"linked-twice-{tag}", "items": items, "files": files, "argv": ["src", "vendor"], "cfgs": {"vendor": {"quote_style": "ForceSingle"}},
+            "links": {"vendor/shared.lua": "../src/shared.lua"}}
+
+
 def with_mode(scn, mode):
     s = dict(scn)
     s["mode"] = mode
@@ -548,6 +570,7 @@ def run(tier, seed):
         sweep_scns += [with_mode(big_tree(prng, 40, ref, "pinned"), m) for m in ("check", "write")]
         bprng = clilib.Rng(190021)  # pinned tree whose last directory has an unloadable configuration
         sweep_scns += [with_mode(big_tree(bprng, 28, ref, "pinned-bad-last-dir", configured=True, bad_last=True), m) for m in ("check", "write")]
+        sweep_scns += [with_mode(linked_twice_tree(ref, "pinned"), m) for m in ("check", "write")]
         cprng = clilib.Rng(190020)  # pinned trees with per-directory configuration
         sweep_scns += [with_mode(big_tree(cprng, 32, ref, "pinned-configured", configured=True), m) for m in ("check", "write")]
         srng = clilib.Rng(seed * 1000003 + 19)
@@ -583,7 +606,7 @@ def run(tier, seed):
             if not f and (r.rc != rr.rc or r.files != rr.files):
                 f = [{"oracle": "same-as-single-thread", "signature": "C19:differs-from-single-thread-run",
                       "detail": f"{scn['name']} threads={n} jitter={jit}: exit {r.rc} vs {rr.rc}",
-                      "case": {"scenario": {k: scn[k] for k in ("name", "mode", "items", "files", "argv", "cfgs") if k in scn}, "how": f"threads={n} jitter={jit}"}}]
+                      "case": {"scenario": {k: scn[k] for k in ("name", "mode", "items", "files", "argv", "cfgs", "links") if k in scn}, "how": f"threads={n} jitter={jit}"}}]
             return f
 
         with cf.ThreadPoolExecutor(max_workers=svlib.NCPU) as pool:
@@ -651,7 +674,7 @@ def run(tier, seed):
                 for (kind, frames), (scn, n, text) in reports.items():
                     out["findings"].append({"oracle": "thread-sanitizer", "signature": "C19:tsan:" + kind.replace(" ", "-") + ":" + "|".join(frames),
                                             "detail": f"{scn['name']} threads={n}: {text}",
-                                            "case": {"scenario": {k: scn[k] for k in ("name", "mode", "items", "files", "argv", "cfgs") if k in scn}, "how": f"tsan threads={n}"}})
+                                            "case": {"scenario": {k: scn[k] for k in ("name", "mode", "items", "files", "argv", "cfgs", "links") if k in scn}, "how": f"tsan threads={n}"}})
                 tsan_info = {"ran": True, "runs": ran, "distinct_reports": len(reports)}
                 counters["tsan.runs"] = ran
         # ---------------- (d) valgrind memcheck over the release binary (thorough): invalid reads / writes /
